@@ -920,7 +920,7 @@ class Mps(MatrixProduct):
 
         # `self` should not be modified during the evolution
         if imag_time:
-            mps = self.copy()
+            mps = mpo.promote_mt_type(self.copy())
         else:
             mps = self.to_complex()
 
@@ -1126,7 +1126,7 @@ class Mps(MatrixProduct):
         # mps: the mps to return
         # environ_mps: mps to construct environ
         if imag_time:
-            mps = self.copy()
+            mps = mpo.promote_mt_type(self.copy())
         else:
             mps = self.to_complex()
 
@@ -1275,7 +1275,7 @@ class Mps(MatrixProduct):
         # TDVP projector splitting
         # one-site
         if np.iscomplex(evolve_dt):
-            mps = self.copy()
+            mps = mpo.promote_mt_type(self.copy())
             if self.evolve_config.ivp_solver != "krylov":
                 evolve_dt = -evolve_dt.imag
                 # used in calculating derivatives
@@ -1417,7 +1417,7 @@ class Mps(MatrixProduct):
         # TDVP projector splitting
         # two-site
         if np.iscomplex(evolve_dt):
-            mps = self.copy()
+            mps = mpo.promote_mt_type(self.copy())
             if self.evolve_config.ivp_solver != "krylov":
                 evolve_dt = -evolve_dt.imag
                 # used in calculating derivatives
